@@ -11,7 +11,7 @@ import (
 
 func init() {
 	checks["C10"] = checkC10
-	explanations["C10"] = "Structural necessary conditions over everything reachable (class-hierarchy call graph incl. promoted methods and codec dispatch) from the wire entry points of the root, sqlite and fsim modules — http.Handler.ServeHTTP, the four Respond/HandleError, DI, TO1, TO2, TO0Client.RegisterBlob, http.Transport.Send, Parse*RvInfo — with a peer-taint analysis (E3): G1 every explicit panic is an SSA artifact, untainted, exhaustive-switch fallthrough or in a reviewed table, and every call of a panicking registry/enumeration accessor with a peer-controlled receiver is dominated by a validator; G2 every allocation with a peer-controlled size is len-derived, narrow-typed, constant-field or dominated by an upper bound (<= 2^24); G3 every index/slice the Go compiler's prove pass could NOT eliminate is untainted, guarded by comparisons on the very values, or reviewed (constant indices always need a length guard); G4 stdlib calls that panic on malformed arguments (IV/nonce length, whole blocks, short buffers) are guarded; G5 no unchecked type assertion on decoded values; G6 every pointer the decoder can leave nil (CBOR null into a pointer-typed exported field or slice element of a decoded object, followed through copies, fields, parameters and results) is compared with nil before it is dereferenced (also discharged by a completed loop that checks every element; callbacks shipped with the library are reached through signature-matched callback edges); G7 (contradiction rule) an interface- or function-typed struct field that some wire-reachable code compares with nil is optional, and every call through it is dominated by a nil check or an assignment of a call result; G8 a subtraction on an unsigned peer-controlled value outside the codec is dominated by a comparison that excludes wrap-around; G4 additionally covers reflect.Value.SetMapIndex (comparable key) and big.Int.FillBytes (buffer sized from the value's source); plus (E1) each Respond returns either its response under err==nil or the error message type, and both content-length guards dominate body processing on server and client. Also: a function that fills a ChunkInPipe from a slice and drains it afterwards in the same goroutine gives the pipe len(that slice) buffers. Not decided: nil dereferences of pointers that do not come from decoding (configuration, state store, maps), nil interface values, panics inside reflect/stdlib other than the listed preconditions, hangs and CPU exhaustion (e.g. blocking pipes), memory below the stated bounds."
+	explanations["C10"] = "Structural necessary conditions over everything reachable (class-hierarchy call graph incl. promoted methods and codec dispatch) from the wire entry points of the root, sqlite and fsim modules — http.Handler.ServeHTTP, the four Respond/HandleError, DI, TO1, TO2, TO0Client.RegisterBlob, http.Transport.Send, Parse*RvInfo — with a peer-taint analysis (E3): G1 every explicit panic is an SSA artifact, untainted, exhaustive-switch fallthrough or in a reviewed table, and every call of a panicking registry/enumeration accessor with a peer-controlled receiver is dominated by a validator; G2 every allocation with a peer-controlled size is len-derived, narrow-typed, constant-field or dominated by an upper bound (<= 2^24); G3 every index/slice the Go compiler's prove pass could NOT eliminate is untainted, guarded by comparisons on the very values, or reviewed (constant indices always need a length guard); G4 stdlib calls that panic on malformed arguments (IV/nonce length, whole blocks, short buffers) are guarded; G5 no unchecked type assertion on decoded values; G6 every pointer the decoder can leave nil (CBOR null into a pointer-typed exported field or slice element of a decoded object, followed through copies, fields, parameters and results) is compared with nil before it is dereferenced (also discharged by a completed loop that checks every element; callbacks shipped with the library are reached through signature-matched callback edges); G7 (contradiction rule) an interface- or function-typed struct field that some wire-reachable code compares with nil is optional, and every call through it is dominated by a nil check or an assignment of a call result; G8 a subtraction on an unsigned peer-controlled value outside the codec is dominated by a comparison that excludes wrap-around; G4 additionally covers reflect.Value.SetMapIndex (comparable key) and big.Int.FillBytes (buffer sized from the value's source); plus (E1) each Respond returns either its response under err==nil or the error message type, and both content-length guards dominate body processing on server and client. Also: a function that fills a ChunkInPipe from a slice and drains it afterwards in the same goroutine gives the pipe len(that slice) buffers. G7b carries G7 across static calls: a parameter compared with nil by its own function (not as a panic assertion) is nil-tolerant, the struct fields and caller parameters flowing into it may be nil, so may the parameters they are handed on to, and every invoke through a value derived from such a parameter needs a non-nil fact for it or for each value merged into it. Not decided: nil dereferences of pointers that do not come from decoding (configuration, state store, maps), nil interface values, panics inside reflect/stdlib other than the listed preconditions, hangs and CPU exhaustion (e.g. blocking pipes), memory below the stated bounds."
 }
 
 func checkC10(c *Ctx, p *Prog, r *Result) {
